@@ -54,9 +54,13 @@ def drive(scns: List[Dict[str, Any]], procs: int = 16) -> List[Dict[str, Any]]:
         return []
     if REPO not in sys.path:
         sys.path.insert(0, REPO)
-    ctx = mp.get_context("fork")
-    with ctx.Pool(min(procs, max(1, len(scns) // 20 + 1)), initializer=_init_worker) as pool:
-        res = pool.map(_drive_one, scns, chunksize=max(1, len(scns) // (procs * 8)))
+    if os.environ.get("VERIF_INLINE") == "1":      # coverage measurement (tools/coverage_report.sh): no worker processes
+        _init_worker()
+        res = [_drive_one(s) for s in scns]
+    else:
+        ctx = mp.get_context("fork")
+        with ctx.Pool(min(procs, max(1, len(scns) // 20 + 1)), initializer=_init_worker) as pool:
+            res = pool.map(_drive_one, scns, chunksize=max(1, len(scns) // (procs * 8)))
     for r, s in zip(res, scns):
         if "error" in r:
             raise RuntimeError("driver failed on scenario %s:\n%s" % (json.dumps(s)[:500], r["error"]))
